@@ -168,8 +168,6 @@ MUTANTS = [
     ("c05-instance-dispatch-fallback-reverted", "C05", S, "                    instance_dispatch = getattr(self.instance, \"_dispatch\")\n",
      "                    return getattr(self.instance, \"_dispatch\")(method, params)\n",
      "an AttributeError raised through instance._dispatch falls back to a second call"),
-    ("c10-nameless-callable-log-reverted", "C10", T, "                            getattr(method, \"__name__\", method),\n", "                            method.__name__,\n",
-     "a failing partial kills its worker again"),
     ("c16-execute-except-exception-reverted", "C16", T, "            result = method(*args, **kwargs)\n        except BaseException as ex:",
      "            result = method(*args, **kwargs)\n        except Exception as ex:", "futures of tasks raising SystemExit never complete"),
     ("c09-worker-except-exception-reverted", "C09", T, "                        future.execute(method, args, kwargs)\n                    except BaseException as ex:",
